@@ -9,6 +9,7 @@
     union with temporary errors) on shared types: the last outcome equals its outcome on freshly executed types.
 """
 import itertools
+from collections import deque
 import sys
 import types
 
@@ -70,6 +71,12 @@ DECL_KINDS = ["schema-plain", "schema-field", "schema-factory", "dataclass-plain
               "schema-force-default-runtime", "func-posonly", "func-kwonly"]
 
 
+# default *factories* that build a new object on every call: what they return may hold any mutable object (not only the
+# containers that declared defaults are copied through), and may differ from call to call
+FRESH_DEFAULTS = ["[bytearray(b'a')]", "{'in': deque([1])}", "[[bytearray(b'a')], {'k': deque()}]", "[next(COUNTER)]"]
+FRESH_KINDS = ["schema-factory-fresh", "dataclass-factory-fresh", "schema-factory-fresh-sub"]
+
+
 def bounds(tier):
     return dict(declarations=len(spec_universe(tier)), option_sets=len(OPTSETS), default_kinds=DEFAULTS,
                 declaration_kinds=DECL_KINDS, history_length=5 if tier == "thorough" else 4, call_kinds=len(CALL_KINDS),
@@ -83,6 +90,7 @@ def shards(tier):
     n = len(spec_universe(tier))
     sh = [("mut", i, min(i + CHUNK, n)) for i in range(0, n, CHUNK)]
     sh += [("defaults", k, d) for k in DECL_KINDS for d in range(len(DEFAULTS))]
+    sh += [("defaults", k, len(DEFAULTS) + d) for k in FRESH_KINDS for d in range(len(FRESH_DEFAULTS))]
     sh += [("history", i) for i in range(len(CALL_KINDS))]
     sh += [("reparse", i) for i in range(len(REPARSE_TYPES))]
     return sh
@@ -184,6 +192,11 @@ def decl_source(kind, dexpr):
     if kind == "schema-force-default-runtime":
         return (f"D = {dexpr}\nclass S(Schema):\n    a: Any = Field(required=False)\n    b: Any = None\n"
                 "OPT = Options(force_default=D)\ndef new():\n    return S.__from__({}, options=OPT)\nget = lambda r: [r.a, r.b]\n")
+    if kind in FRESH_KINDS:
+        base = "DataClass" if kind.startswith("dataclass") else "Schema"
+        sub = "class S(S0):\n    n: int = 0\n" if kind.endswith("-sub") else ""
+        return (f"import itertools as _it\nCOUNTER = _it.count()\nD = None\nclass {'S0' if sub else 'S'}({base}):\n"
+                f"    a: Any = Field(default_factory=lambda: {dexpr})\n{sub}def new():\n    return S()\nget = lambda r: r.a\n")
     if kind == "func-plain":
         return f"D = {dexpr}\n@utype.parse\ndef F(a: Any = D, n: int = 0):\n    return a\ndef new():\n    return F()\nget = lambda r: r\n"
     if kind == "func-posonly":
@@ -207,19 +220,25 @@ def mutate_all_levels(v):
         v["MUT"] = "MUT"
     elif isinstance(v, set):
         v.add("MUT")
+    elif isinstance(v, bytearray):
+        v.extend(b"MUT")
+    elif isinstance(v, deque):
+        v.append("MUT")
     elif isinstance(v, tuple):
         for x in v:
             mutate_all_levels(x)
 
 
 def _defaults(acc, kind, di, tier):
-    dexpr = DEFAULTS[di]
+    dexpr = (DEFAULTS + FRESH_DEFAULTS)[di]
     maxlen = 5 if tier == "thorough" else 4
     src = decl_source(kind, dexpr)
-    declared = canon(ev(dexpr))
+    counter = "COUNTER" in dexpr
+    declared = canon(ev(dexpr)) if not counter else None
     if kind.startswith("schema-force-default"):
         declared = canon([ev(dexpr), ev(dexpr)])      # both absent fields read the forced value, independently
     factory = kind in ("schema-factory", "schema-defer-factory")
+    fresh_factory = kind in FRESH_KINDS
     for n in range(1, maxlen + 1):
         for hist in itertools.product(("new", "mut-first", "mut-last"), repeat=n):
             if hist[0] != "new":
@@ -248,16 +267,18 @@ def _defaults(acc, kind, di, tier):
                 for j, r in enumerate(results):
                     if j in touched:
                         continue
-                    if canon(env["get"](r)) != declared:
+                    if canon(env["get"](r)) != (declared if not counter else canon([j])):
                         bad = (f"after {list(hist[:step + 1])} result #{j} (never mutated) reads {short(env['get'](r), 60)} instead of "
                                f"the declared default {dexpr}", "result-changed")
                         break
-                if not bad and not factory and canon(env["D"]) != canon(ev(dexpr)):
+                if not bad and not factory and not fresh_factory and canon(env["D"]) != canon(ev(dexpr)):
                     bad = (f"after {list(hist[:step + 1])} the declared default object itself is now {short(env['D'], 60)}", "default-object-changed")
                 if not bad and touched:
                     fresh = env["new"]()
                     acc.transitions += 1
-                    if not factory and canon(env["get"](fresh)) != declared:
+                    if counter:
+                        results.append(fresh)       # it took the next number
+                    if not factory and not counter and canon(env["get"](fresh)) != declared:
                         bad = (f"after {list(hist[:step + 1])} a fresh instance / call sees {short(env['get'](fresh), 60)} instead of {dexpr}",
                                "fresh-sees-mutation")
                 if bad:
@@ -359,6 +380,12 @@ def DF(a: int = Param(None, dependencies=['p']), b: int = Param(None, dependenci
 class Keyed(Schema):
     __options__ = Options(cast_keyword_str=True, addition=True)
     v: int = 0
+class Item(Schema):
+    __options__ = Options(case_insensitive=True)
+    size: Union[PositiveInt, str] = 1
+@utype.parse(options=Options(ignore_constraints=True))
+def SZ(size: Union[PositiveInt, str] = 1):
+    return size
 @utype.parse
 def G(a: int, *rest: PositiveInt) -> Generator[int, None, None]:
     yield a
@@ -381,6 +408,12 @@ def drain(agen):
 '''
 CALL_KINDS = [
     ("schema-ok", "S(a='1', u=['2', 3], i={'w': 4}, x='a')"),
+    # one union type parsed under different options: what the probing stages of one parse were given is that parse's alone
+    ("item-plain", "Item(size=-3)"),
+    ("item-ignore-constraints", "Item.__from__({'size': -3}, options=Options(ignore_constraints=True))"),
+    ("item-no-explicit-cast", "Item.__from__({'SIZE': '5'}, options=Options(no_explicit_cast=True, case_insensitive=True))"),
+    ("item-mode", "Item.__from__({'size': 2.5}, options=Options(mode='r', no_data_loss=True))"),
+    ("sizefunc-ignore-constraints", "SZ(-3)"),
     ("schema-fail", "S(a='x', u=-1)"),
     ("schema-collect-fail", "S.__from__({'a': 'x', 'u': 'y', 'i': {'w': -1}, 'x': 'zz'}, options=Options(collect_errors=True))"),
     ("schema-union-last-stage", "S(a=1, u='5')"),
